@@ -715,13 +715,17 @@ class DataFrame:
         return self._take(keep)
 
     def sort_values(self, by, inplace=False, ascending=True, **kw):
-        if isinstance(by, list):
-            if len(by) != 1:
-                raise ShimGap('sort_values by several columns')
-            by = by[0]
-        if by not in self.cols:
-            raise KeyError(by)
-        order = np_._insertion_order(self.cols[by])
+        keys = list(by) if isinstance(by, (list, tuple)) else [by]
+        for k in keys:
+            if k not in self.cols:
+                raise KeyError(k)
+        if not isinstance(ascending, bool):
+            raise ShimGap('sort_values with per-key ascending')
+        # lexicographic order = successive stable sorts, last key first
+        order = list(range(len(self.index)))
+        for k in reversed(keys):
+            sub = np_._insertion_order([self.cols[k][i] for i in order])
+            order = [order[j] for j in sub]
         if not ascending:
             order = order[::-1]
         if inplace:
